@@ -14,7 +14,7 @@ import sys
 import time
 
 ROOT = os.path.dirname(os.path.dirname(os.path.abspath(__file__)))
-REPO = "/repo"
+REPO = os.environ.get("VERIF_REPO", "/repo")
 SPEC = os.path.join(ROOT, "spec")
 HARNESS = os.path.join(ROOT, "harness")
 WORK = os.path.join(ROOT, "work")
@@ -161,6 +161,7 @@ def tlc_mc(module, cfg, workdir, workers=8, timeout=3600, xmx="8g", extra=(), co
         res["ok"] = True
         return res
     m = re.search(r"Invariant (\w+) is violated", out) or re.search(r"Action property (\w+) is violated", out) \
+        or re.search(r"Temporal properties were violated", out) and re.search(r"(Temporal) properties were violated", out) \
         or re.search(r"property (\w+) was violated", out) \
         or re.search(r"Temporal properties were violated", out)
     if m:
